@@ -855,7 +855,7 @@ class An:
             v=IntV('lossy',('mulc',args[0].dim,Fraction(1,n_)) if n_ else ('unk','root@%d'%line)); self.lossy_seen.append(line)
         elif re.search(r'Integer::div_rem$',d) and len(args)==2 and isinstance(args[0],IntV) and isinstance(args[1],IntV):
             v=('tuple',[IntV('lossy',('sub',args[0].dim,args[1].dim) if args[1].dim!=TERM0 else args[0].dim),IntV('lossy',args[0].dim)]); self.lossy_seen.append(line)
-        elif re.search(r'count_decimal_digits(_uint)?$',res): v=('unk','digits@%d'%line); s.facts.append(('le',('int',1),v))
+        elif re.search(r'count_decimal_digits(_uint)?$|BigDecimal::digits$|BigDecimalRef(::<.*>)?::count_digits$',res): v=('unk','digits@%d'%line); s.facts.append(('le',('int',1),v))
         elif re.search(r'(core|std)::num::.*::pow$',d) and len(args)==2 and args[0]==('int',10) and isterm(args[1]):
             v=IntV(P(1),args[1]); v.pow10=True
         elif re.search(r'Integer::div_rem$',d) and len(args)==2 and isterm(args[0]) and isinstance(args[1],tuple) and args[1] and args[1][0]=='int' and args[1][1]>0:
